@@ -17,6 +17,7 @@ macro_rules! dispatch {
         match $id {
             "C03" => runner::$f(&props::c03::C03, $($arg),*),
             "C04" => runner::$f(&props::c04::C04, $($arg),*),
+            "C07" => runner::$f(&props::c07::C07, $($arg),*),
             "C08" => runner::$f(&props::c08::C08, $($arg),*),
             "C14" => runner::$f(&props::c14::C14, $($arg),*),
             "C17" => runner::$f(&props::c17::C17, $($arg),*),
